@@ -843,8 +843,16 @@ func runExtra(kind, ckind, msg, cmsg string, n int, cause error) (string, bool) 
 			return "FAIL RuntimePrefixesToFilter: an added prefix is not filtered from %v only", true
 		}
 		errs.RuntimePrefixesToFilter = nil
-		if v2 := fmt.Sprintf("%v", e); v2 != pv {
-			return "FAIL RuntimePrefixesToFilter: with no prefixes %v must equal %+v", true
+		// with no prefixes the only frame %v may still drop is main.main in `_testmain.go` (the library's function-and-file
+		// rule; this binary's main.main carries that file name, see main.go)
+		var keep []string
+		for _, line := range strings.Split(pv, "\n") {
+			if !strings.HasPrefix(line, "    [main.main] _testmain.go:") {
+				keep = append(keep, line)
+			}
+		}
+		if v2 := fmt.Sprintf("%v", e); v2 != strings.Join(keep, "\n") {
+			return "FAIL RuntimePrefixesToFilter: with no prefixes %v must equal %+v without the _testmain.go main.main frame", true
 		}
 		errs.RuntimePrefixesToFilter = old
 		return checkRender(e, msg, "makeNew", nil, false), true
